@@ -741,3 +741,36 @@ func derefString(fn *FuncInfo, x ast.Expr) string {
 	}
 	return exprString(out)
 }
+
+// derefExpr follows identifiers of local variables that are defined exactly once by an
+// expression (never re-assigned, address not taken) to that expression, to depth 4. The result
+// is a node of the function's own syntax tree, so type information stays available.
+func derefExpr(fn *FuncInfo, x ast.Expr) ast.Expr {
+	info := fn.Info()
+	for depth := 0; depth < 4; depth++ {
+		id, ok := ast.Unparen(x).(*ast.Ident)
+		if !ok {
+			return x
+		}
+		v, ok := info.Uses[id].(*types.Var)
+		if !ok || v.IsField() || v.Parent() == nil || v.Pkg() == nil || v.Parent() == v.Pkg().Scope() {
+			return x
+		}
+		ds := varDefs(fn, v)
+		if len(ds) != 1 || ds[0].rhs == nil {
+			return x
+		}
+		addr := false
+		ast.Inspect(fn.Decl.Body, func(n ast.Node) bool {
+			if u, ok := n.(*ast.UnaryExpr); ok && u.Op == token.AND && identObj(info, u.X) == v {
+				addr = true
+			}
+			return !addr
+		})
+		if addr {
+			return x
+		}
+		x = ds[0].rhs
+	}
+	return x
+}
